@@ -110,11 +110,6 @@ def blocks(text):
             out.append([line.split(":", 1)[0], line])
     return [tuple(b) for b in out]
 
-def plain_value(v):
-    ls = v.split("\n")
-    return all(l != "" and l[0] not in " \t#" and "\r" not in l and l == l.rstrip(" \t") for l in ls[1:]) and \
-        "\r" not in ls[0] and ls[0] == ls[0].strip(" \t") and (len(ls) == 1 or True)
-
 class C16(Prop):
     id = "C16"
     coq_targets = ["props/C16.vo"]
@@ -217,8 +212,6 @@ class C16(Prop):
                 return f"to_paragraph: field {k} printed as {v!r}, its serialiser gives {want!r}"
         if r.get("toll") != r.get("to"):
             return "to_paragraph differs between the lossy and the lossless back-end"
-        pairs_ok = all((f["ser"], f["de"]) in RT_PAIRS or (f["ser"].startswith("SExt") and f["de"] == "D" + f["ser"][1:])
-                       or f["ser"] in ("SNum", "SInt") for f in st["fields"])
         if st["from"] and representable:
             for key in ("rt", "rtll"):
                 if r.get(key) != "1":
